@@ -150,4 +150,45 @@ example : ∃ progs, addImported exampleDB = some progs ∧
   obtain ⟨progs, h, _⟩ := C07_program_taxa exampleDB exampleDB_wf
   exact ⟨progs, h, by cases h; decide +kernel, by cases h; decide +kernel⟩
 
+/-! ### One recommender: `run_pipeline` called any number of times -/
+
+/-- `Recommendations.run_pipeline`: the commands update the filter, then
+`self.assess.set_imparted_knowledge(self.imparted_knowledge)` and
+`self.assessed_programs = self.assess(self.selected_programs)` — on the SAME memoised assessor as
+the previous calls. Returns the new filter state, the new assessor state and the ranking. -/
+def recRun (c : Ctx) (r : Relations) (strat : Strategy) (st : State) (a : AState) (cmds : List Command) :
+    Except Err (State × AState × AOut) :=
+  match runPipeline c r st cmds with
+  | .error e => .error e
+  | .ok st' =>
+    let a1 := (astep strat c.programs a (.setKnowledge st'.knowledge)).1
+    let out := astep strat c.programs a1 (.assess st'.selected)
+    .ok (st', out.1, out.2)
+
+/-- **Every assessment of a recommender reflects the knowledge and the selection of its filter at
+that time**, whatever the earlier `run_pipeline` calls assessed and cached: from ANY assessor state
+(any memo left by earlier runs), the ranking a `run_pipeline` call stores is the pure assessment of
+the selection it leaves, under the knowledge it leaves. (`set_imparted_knowledge` is called before
+every assessment: the in-place mutation of the knowledge set shared with the filter, which
+`update_filter` performs, is never observed by the assessor without it — the model has no such step,
+and a direct `update_filter` followed by `assess` without `run_pipeline` is outside this statement.) -/
+theorem C07_recommender (c : Ctx) (r : Relations) (strat : Strategy) (st st' : State) (a a' : AState)
+    (cmds : List Command) (out : AOut) (h : recRun c r strat st a cmds = .ok (st', a', out)) :
+    runPipeline c r st cmds = .ok st' ∧
+    out = .ranking (assess strat c.programs st'.knowledge st'.selected) ∧
+    a'.knowledge = st'.knowledge ∧ MemoOk strat a' := by
+  unfold recRun at h
+  cases hr : runPipeline c r st cmds with
+  | error e => rw [hr] at h; cases h
+  | ok sm =>
+    rw [hr] at h
+    simp only [Except.ok.injEq, Prod.mk.injEq] at h
+    obtain ⟨rfl, rfl, rfl⟩ := h
+    have h1 : MemoOk strat (astep strat c.programs a (.setKnowledge sm.knowledge)).1 :=
+      fun t v hv => by cases hv
+    obtain ⟨e1, e2⟩ := astep_spec strat c.programs _ (.assess sm.selected) h1
+    refine ⟨rfl, ?_, ?_, e2⟩
+    · rw [e1]; rfl
+    · rw [C07_knowledge_current]; rfl
+
 end Paroxy.Props.C07
